@@ -1,6 +1,7 @@
 package otto
 
 import (
+	"regexp"
 	"strconv"
 	"time"
 )
@@ -31,8 +32,9 @@ var (
 			value: 0,
 		},
 	}
+	// RegExp.prototype is itself a RegExp object, one that matches the empty string.
 	prototypeValueRegExp = regExpObject{
-		regularExpression: nil,
+		regularExpression: regexp.MustCompile(""),
 		global:            false,
 		ignoreCase:        false,
 		multiline:         false,
